@@ -1,5 +1,10 @@
+mod ast;
+mod corpus;
 mod fw;
+mod grammar;
 mod props;
+mod refeval;
+mod shrink;
 mod subj;
 mod val;
 
@@ -12,6 +17,13 @@ fn usage() -> ! {
 
 fn main() {
     let args: Vec<String> = std::env::args().collect();
+    // DataError captures a backtrace when RUST_BACKTRACE is set: three orders of magnitude slower per error
+    if std::env::var("RUST_LIB_BACKTRACE").map(|v| v != "0").unwrap_or(true) && std::env::var("RUST_BACKTRACE").map(|v| v != "0").unwrap_or(false) {
+        use std::os::unix::process::CommandExt;
+        let e = std::process::Command::new(std::env::current_exe().unwrap()).args(&args[1..]).env("RUST_BACKTRACE", "0").env("RUST_LIB_BACKTRACE", "0").exec();
+        eprintln!("re-exec failed: {}", e);
+        std::process::exit(2);
+    }
     if args.len() < 2 {
         usage();
     }
@@ -19,6 +31,14 @@ fn main() {
         "list" => {
             for p in props::all() {
                 println!("{} {} quick={} thorough={}", p.id(), p.level(), p.size(Tier::Quick), p.size(Tier::Thorough));
+            }
+        }
+        "describe" => {
+            let prop = props::find(&args[2]).unwrap_or_else(|| usage());
+            let tier = Tier::parse(&args[3]).unwrap_or_else(|| usage());
+            for a in &args[4..] {
+                let i: u64 = a.parse().unwrap();
+                println!("{}: {}", i, prop.describe(tier, i));
             }
         }
         "check" => {
